@@ -81,7 +81,7 @@ pub fn run(cfg: &RunCfg) -> PartResult {
     let mut covered = vec![];
     for entry in entries(cfg.tier, false) {
         let g = entry.ograph();
-        let nr = if g.num_loops() >= 3 { 2 } else { 4 };
+        let nr = if g.ne() >= 6 { 1 } else if g.num_loops() >= 3 { 2 } else { 4 };
         // one D per entry: u and L do not depend on D (D only changes the number of Gaussian coordinates)
         let d = entry.dims[(cfg.seed as usize) % entry.dims.len()];
         for routing in routings(&g, nr) {
